@@ -241,6 +241,7 @@ func init() {
 		ruleAtomicRMW(r)
 		rulePoolSwap(r)
 		ruleLookupBothPools(r)
+		rulePublishedBytes(r)
 		ruleBucketAfterWrite(r)
 		ruleKeyCheck(r)
 		la, rt := runLockAnalysis(r, "race-fg-fl")
